@@ -146,7 +146,7 @@ EditsOf(kind) ==
                                 d \in {<<5000000, -1000000, 300>>, <<-123, 456, -7>>, <<700000, 700000, 0>>}}
     [] kind = "RotateCircle" -> {[k |-> "RotateCircle", w |-> w] : w \in {1, 999997, 1999999, 2000003, 3999998, 1234567}}   \* 1e-4 gon
     [] kind = "Permute" -> {[k |-> "Permute", s |-> s] : s \in 1..3}
-    [] kind = "Rename" -> {[k |-> "Rename", s |-> s] : s \in 1..3}
+    [] kind = "Rename" -> {[k |-> "Rename", s |-> s] : s \in 1..4}      \* 4: identifiers and description with characters that must be escaped in XML
     [] kind = "SwitchUnits" -> {[k |-> "SwitchUnits"]}
     [] kind = "SwapEnds" -> {[k |-> "SwapEnds"]}
     [] kind = "MirrorAxes" -> {[k |-> "MirrorAxes", axes |-> ax, lefthanded |-> lh] : ax \in AxesAll, lh \in BOOLEAN}
